@@ -22,6 +22,8 @@ EXTENDS ModulesDefs, TLC, Json
 CONSTANTS N,         \* modules 1..N
           MaxB,      \* AddDependency(a, B) with 1 <= |B| <= MaxB
           WithInit,  \* explore the init phase
+          CanonInit, \* ... only from one representative per isomorphism class of DAGs (the actions
+                     \* of the init phase do not look at module identities: symmetry reduction)
           EmitCases  \* print one JSON case per DAG (gen direction)
 
 Mod  == 1..N
@@ -55,6 +57,13 @@ AddDependency(a, B) ==
     /\ UNCHANGED <<phase, T, rem, cur, placed, order>>
 
 (* ---- init phase ------------------------------------------------------- *)
+(* one representative per isomorphism class: the labelling with the smallest code *)
+RECURSIVE Code(_)
+Code(g) == IF g = {} THEN 0 ELSE LET e == CHOOSE x \in g : TRUE IN 2^((e[1]-1)*N + (e[2]-1)) + Code(g \ {e})
+Perms == {p \in [Mod -> Mod] : \A i, j \in Mod : i # j => p[i] # p[j]}
+Relabel(g, p) == {<<p[e[1]], p[e[2]]>> : e \in g}
+IsCanon(g) == LET c == Code(g) IN \A p \in Perms : c <= Code(Relabel(g, p))
+
 StartInit(targets) ==
     /\ WithInit /\ phase = "build"
     /\ phase' = "init" /\ T' = targets /\ rem' = targets
@@ -89,7 +98,9 @@ InitNothing ==   \* InitModuleServices() without targets
     /\ UNCHANGED <<deps, tr, last, T, rem, cur, placed, order>>
 
 Next == \/ \E a \in Mod : \E B \in SUBSET Mod : B # {} /\ Cardinality(B) <= MaxB /\ AddDependency(a, B)
-        \/ \E targets \in SUBSET Mod : StartInit(targets)
+        \/ /\ WithInit /\ phase = "build"
+           /\ CanonInit => IsCanon(deps)
+           /\ \E targets \in SUBSET Mod : StartInit(targets)
         \/ \E t \in Mod : PickTarget(t)
         \/ \E x \in Mod : PlaceDep(x)
         \/ FinishTarget
